@@ -6,12 +6,37 @@
 
 package routing
 
+import "sync"
+
+// Schedule points for the verification harness (build tag "verif" only). An in-package test either sets
+// verifSched or installs a hook with verifSetHook; verifPoint calls them with the name of the point that
+// was reached. Without the tag verifPoint is an empty function, see verifhook_off.go.
+
 // verifSched, if set by a test, is called at named schedule points to force a goroutine interleaving.
 var verifSched func(name string)
+
+var (
+	verifHookMutex sync.RWMutex
+	verifHook      func(name string)
+)
+
+func verifSetHook(hook func(name string)) {
+	verifHookMutex.Lock()
+	verifHook = hook
+	verifHookMutex.Unlock()
+}
 
 // verifPoint marks a schedule point. It is a no-op unless built with the verif tag, see verifhook_off.go.
 func verifPoint(name string) {
 	if f := verifSched; f != nil {
 		f(name)
+	}
+
+	verifHookMutex.RLock()
+	hook := verifHook
+	verifHookMutex.RUnlock()
+
+	if hook != nil {
+		hook(name)
 	}
 }
